@@ -87,7 +87,7 @@ var c03Numbers = []string{"0", "-1", "1", "2", "3", "2147483648", "9223372036854
 var c03Strings = []string{"", " ", "x", "FINAL_OUTPUT", "int", "\"", "\n", "\r", "�", "é", "..", "[", "(", "*", "?", "a|b", ".", "/", "//", "1", "true", "segment_group", "record_group", "envelope_group"}
 var c03Delims = []string{"\"", "\r", "\n", "�", "é", "", "ab", " ", "\\", "|", "*", "\x00", "a", ":", "~", "'"}
 var c03Types = []string{"int", "float", "boolean", "string", "segment", "segment_group", "record", "record_group", "envelope", "envelope_group", "bogus"}
-var c03XPaths = []string{"[", "..", ".", "//", "/", "*", "../..", "a[", "a[1", "count(", "//*", "a | b", "@x", "text()", "a/b/c", "'", "1 div 0", "/*/*", ".[", "position()", ""}
+var c03XPaths = []string{".[c0 > 3]", "*[. < 4]", ".[c1 = 1]", "a[@k>0]", "[", "..", ".", "//", "/", "*", "../..", "a[", "a[1", "count(", "//*", "a | b", "@x", "text()", "a/b/c", "'", "1 div 0", "/*/*", ".[", "position()", ""}
 var c03Regexes = []string{"(", "[", "*", "^", "$", ".*", "", "(?P<", "\\", "a{2,1}", "^.{0}$"}
 var c03Funcs = []string{"upper", "lower", "concat", "coalesce", "uuidv3", "copy", "dateTimeToRFC3339", "dateTimeLayoutToRFC3339", "dateTimeToEpoch", "epochToDateTimeRFC3339",
 	"javascript", "javascript_with_context", "now", "nosuchfunc", "switch", "switchByPattern", "substring", "splitIntoJsonArray", "ifElse", "eval", "external", "containsPattern", "isEmpty", "floor"}
